@@ -465,10 +465,10 @@
               (for i 0 n (buffer/push b (parts (% i 5)))) (buffer/push b "\xD3\x00")
               # close the proto tables: after the proto comes nothing (len 0)
               (string b))
-    "funcdef-trunc" (fn [n] (string "\xD7\x00" (rep "\xCD\x00\x20\x00\x00\x00\x00\x00\x00\x00\x00\x01" n)))
+    "funcdef-nest" (fn [n] (string "\xD7\x00" (rep "\xCD\x00\x20\x00\x00\x00\x00\x00\x00\x00\x00\x01" n)))
     "funcdef-valid" (fn [n] (string "\xD7\x00" (rep img-def-open n) img-def-leaf))
     "trunc-arr" (fn [n] (rep "\xD1\x01" n))})
-(def image-shape-names ["arr" "tup" "tab-val" "tab-key" "st-val" "tab-proto" "st-proto" "mixed" "funcdef-trunc"
+(def image-shape-names ["arr" "tup" "tab-val" "tab-key" "st-val" "tab-proto" "st-proto" "mixed" "funcdef-nest"
                         "funcdef-valid" "trunc-arr"])
 (def image-consumers
   @{"unmarshal" (fn [img] (type (unmarshal img)))
